@@ -43,7 +43,7 @@ func (P) Engine() string { return "E2r" }
 
 func (P) Describe() harness.Description {
 	return harness.Description{
-		MustHit: []string{"outlier_breakers_checked_at_rest", "trace_error_on_an_entry_of_another_caller", "per_value_caches_smaller_than_the_value_set", "request_raced_with_rule_switch", "both_rule_lists_observed", "getter_ran_concurrently", "stable_resource_checked"},
+		MustHit: []string{"request_on_the_budget_resource", "outlier_breakers_checked_at_rest", "trace_error_on_an_entry_of_another_caller", "per_value_caches_smaller_than_the_value_set", "request_raced_with_rule_switch", "both_rule_lists_observed", "getter_ran_concurrently", "stable_resource_checked"},
 		Level:   "exploration",
 		Rule: "case = 3-6 simulated callers with 4-14 operations each: traffic (Entry with arguments / TraceError / Exit on a flow-churned, an isolation-churned, a hotspot-churned, a stable-blocking and a free resource), rule churn (LoadRulesOfResource switching among four distinguishable rule lists (2-3 rules each, exactly one always-blocking rule block<n> at a different position, the others never blocking; switches keep, move, drop and add controllers) for flow, isolation and hotspot; whole-set LoadRules / ClearRules for circuit breaker, system and outlier on other resources), readers (all GetRules / GetRulesOfResource, resource node list and statistics getters). " +
 			"The worker is built with -race; the seeded scheduler (random walk / PCT) picks the runner at every atomic access and lock operation. Oracles: (1) any race-detector report ends the run as a violation (replay = the regenerated case and its seeded schedule); (2) no panic escapes, no deadlock among the callers, every caller finishes; (3) every request on a churned resource is blocked by a block<n> rule - never admitted and never blocked by anything else (a mixed reading of two lists); (4) requests on the stable and the free resource are decided as if there were no churn. " +
@@ -62,6 +62,10 @@ const (
 	rStable = "stable"
 	rFree   = "free"
 	rOther  = "other"
+	// rBudget: a hot-parameter resource whose two rule lists both reject the workload's request, for different
+	// reasons: list 0 = [per-user, threshold 2, used up at start], list 1 = [per-user, threshold 100; deny-tenant,
+	// threshold 0 on the second argument]. A request decided by list 0's controllers on list 1's budget is admitted.
+	rBudget = "churn-budget"
 )
 
 var resNames = []string{rFlow, rIso, rHot, rStable, rFree}
@@ -93,6 +97,10 @@ func (P) Gen(rng *sim.Rng, tier string) *harness.Case {
 					}
 					fallthrough
 				case 1:
+					if rng.Chance(0.25) {
+						callers[i] = append(callers[i], harness.Op{K: "breq"})
+						continue
+					}
 					if rng.Chance(0.3) {
 						// TraceError on an entry another caller holds (and may be exiting at the same moment)
 						callers[i] = append(callers[i], harness.Op{K: "xtrace", R: rng.Intn(k), E: rng.Intn(3)})
@@ -111,7 +119,7 @@ func (P) Gen(rng *sim.Rng, tier string) *harness.Case {
 					callers[i] = append(callers[i], op)
 				}
 			case 1: // churn: R selects the module, N the list
-				callers[i] = append(callers[i], harness.Op{K: "churn", R: rng.Intn(6), N: uint64(rng.Intn(4)), F: rng.Chance(0.15)})
+				callers[i] = append(callers[i], harness.Op{K: "churn", R: rng.Intn(7), N: uint64(rng.Intn(4)), F: rng.Chance(0.15)})
 			default: // reader
 				callers[i] = append(callers[i], harness.Op{K: "read", R: rng.Intn(9)})
 			}
@@ -158,6 +166,16 @@ func flowList(n uint64) []*flow.Rule {
 		return []*flow.Rule{mk("block2", 0), mk("pass2", 5e8), assoc("pass2b")}
 	}
 	return []*flow.Rule{mk("pass3", 5e8), assoc("pass3b"), mk("block3", 0)}
+}
+
+func budgetList(n uint64) []*hotspot.Rule {
+	per := func(t int64) *hotspot.Rule {
+		return &hotspot.Rule{ID: "per-user", Resource: rBudget, MetricType: hotspot.QPS, ControlBehavior: hotspot.Reject, ParamIndex: 0, Threshold: t, DurationInSec: 1000000, SpecificItems: map[interface{}]int64{}}
+	}
+	if n%2 == 0 {
+		return []*hotspot.Rule{per(2)}
+	}
+	return []*hotspot.Rule{per(100), {ID: "deny-tenant", Resource: rBudget, MetricType: hotspot.QPS, ControlBehavior: hotspot.Reject, ParamIndex: 1, Threshold: 0, DurationInSec: 1000000, SpecificItems: map[interface{}]int64{}}}
 }
 
 func isoList(n uint64) []*isolation.Rule {
@@ -242,6 +260,12 @@ func (P) Exec(c *harness.Case) *harness.Outcome {
 		// the free resource carries a hot-parameter CONCURRENCY rule that never blocks: every admitted request on it
 		// looks its value up in the per-value counter cache on entry, on pass and on completion
 		_, _ = hotspot.LoadRulesOfResource(rFree, []*hotspot.Rule{{ID: "free-conc", Resource: rFree, MetricType: hotspot.Concurrency, ParamIndex: 0, Threshold: 1000000}})
+		_, _ = hotspot.LoadRulesOfResource(rBudget, budgetList(0))
+		for i := 0; i < 2; i++ {
+			if e, _ := sentinel.Entry(rBudget, harness.EntryOpts(1, false, []interface{}{"u1", "t1"}, nil, nil)...); e != nil {
+				e.Exit()
+			}
+		}
 	}) {
 		return o
 	}
@@ -261,6 +285,7 @@ func (P) Exec(c *harness.Case) *harness.Outcome {
 	// detector would report the other caller's first touch of the entry against its construction.
 	shared := make([][8]atomic.Pointer[base.SentinelEntry], k)
 	xtraces := make([]int, k)
+	budgetLeaks, budgetReqs := make([]int, k), make([]int, k)
 	harness.RunE2(c, o, "C15", env.Clock, k, func(task int) {
 		var held []*base.SentinelEntry
 		for _, op := range c.Callers[task] {
@@ -295,6 +320,12 @@ func (P) Exec(c *harness.Case) *harness.Outcome {
 					r.ruleID = ruleID(be)
 				}
 				results[task] = append(results[task], r)
+			case "breq":
+				if e, _ := sentinel.Entry(rBudget, harness.EntryOpts(1, false, []interface{}{"u1", "t1"}, nil, nil)...); e != nil {
+					budgetLeaks[task]++
+					e.Exit()
+				}
+				budgetReqs[task]++
 			case "oreq":
 				if e, _ := sentinel.Entry(rOther, sentinel.WithSlotChain(osc)); e != nil {
 					_ = e.Context().FilterNodes()
@@ -327,6 +358,8 @@ func (P) Exec(c *harness.Case) *harness.Outcome {
 					} else {
 						_, _ = cb.LoadRules([]*cb.Rule{{Id: fmt.Sprintf("cb%d", op.N), Resource: rOther, Strategy: cb.ErrorCount, RetryTimeoutMs: 1000 + uint32(op.N), MinRequestAmount: 5, StatIntervalMs: 1000, Threshold: 3}})
 					}
+				case 6:
+					_, _ = hotspot.LoadRulesOfResource(rBudget, budgetList(op.N))
 				case 4:
 					if op.F {
 						_ = system.ClearRules()
@@ -426,6 +459,20 @@ func (P) Exec(c *harness.Case) *harness.Outcome {
 		o.Probe("outlier_breakers_checked_at_rest")
 		if len(stale) > 0 {
 			o.Fail("C15.breaker-of-replaced-rule-left-behind", 0, "the outlier rule in force for %s has retry timeout %d (0 = no rule), but these node breakers were built from another rule: %v", rOther, cur, stale)
+			return o
+		}
+	}
+	{
+		leaks, reqs := 0, 0
+		for t := range budgetLeaks {
+			leaks += budgetLeaks[t]
+			reqs += budgetReqs[t]
+		}
+		if reqs > 0 {
+			o.Probe("request_on_the_budget_resource")
+		}
+		if leaks > 0 {
+			o.Fail("C15.mixed-rule-list", 0, "%d of %d requests on %s were admitted: its old rule list (per-user threshold 2, used up) rejects them and its new one (per-user threshold 100, deny-tenant threshold 0) rejects them - they were decided by controllers of one list on the token budget of the other", leaks, reqs, rBudget)
 			return o
 		}
 	}
